@@ -113,7 +113,7 @@ def public_api(repo=REPO):
     return names
 
 
-def infer_requires(tree, docreq, flags):
+def infer_requires(tree, docreq, flags, ts=None, gl=None, initset=()):
     """Lock preconditions of undocumented *internal, non-root* functions, derived from the code: such a function
     requires what its callees require and it does not acquire itself.  Roots (public API, thread entry points,
     functions without callers inside the library) always get the empty precondition, so a missing lock shows up as
@@ -128,15 +128,26 @@ def infer_requires(tree, docreq, flags):
         refs |= set(f.fnptr_refs)
     roots = {f.name for f in tree.funcs.values() if f.name in api or f.name not in called or f.name in refs}
     inferred = {}
+    augmented = set()
     changed = True
     while changed:
         changed = False
         for f in tree.funcs.values():
-            if f.name in docreq and f.name not in inferred:
-                continue
-            if f.name in roots:
+            if f.name in roots or f.name in initset:
                 continue
             own = {l for (op, l, _) in f.lockops}
+            if f.name in docreq and f.name not in inferred and f.name not in augmented:
+                # documented contract: kept as written, plus the guards of the data the body touches directly
+                extra = (direct_guards(f, ts, gl) - own - docreq[f.name][0]) if ts is not None else set()
+                if f.name in flags:
+                    extra.discard(flags[f.name]["lock"])
+                if extra:
+                    augmented.add(f.name)
+                    docreq[f.name] = (docreq[f.name][0] | extra, docreq[f.name][1] + " + guards of the data it touches")
+                    changed = True
+                continue
+            if f.name in augmented:
+                continue
             need = set()
             for c in f.calls:
                 if c == f.name:
@@ -147,6 +158,8 @@ def infer_requires(tree, docreq, flags):
                     if any(len(a) > idx and a[idx] == "false" for a in tree.call_args(f, c)):
                         r.add(flags[c]["lock"])
                 need |= r
+            if ts is not None:
+                need |= direct_guards(f, ts, gl)
             need -= own
             if f.name in flags:
                 need.discard(flags[f.name]["lock"])
@@ -158,13 +171,121 @@ def infer_requires(tree, docreq, flags):
     return inferred, roots
 
 
+def guard_tables(over):
+    """(track_state member -> mutex) from the '// guarded by' comments, (global -> {lock, file}) from contracts/locks.json."""
+    ts = {}
+    for line in open(os.path.join(REPO, "src", "state", "bidib_state_intern.h"), errors="replace"):
+        m = re.match(r"\s*GArray\s*\*\s*(\w+)\s*;\s*//\s*guarded by (\w+)", line)
+        if m and m.group(2) in RANK:
+            ts[m.group(1)] = m.group(2)
+    if len(ts) < 5:
+        raise csrc.ExtractError("cannot read the 'guarded by' comments of t_bidib_track_state_intern (found %d)" % len(ts))
+    return ts, over.get("guarded_globals", {}).get("globals", {})
+
+
+IMMUTABLE_READS = {}
+
+
+def waived_locks(f):
+    """locks whose guarded data f may read without holding them (contracts/locks.json immutable_part_reads); the waiver
+    is void when f's body reads a field of an element outside the allowed immutable set."""
+    w = IMMUTABLE_READS.get(f.name)
+    if not w:
+        return set()
+    used = set(re.findall(r"\b%s\s*->\s*(\w+)" % re.escape(w["element_var"]), f.body))
+    if not used <= set(w["allowed_fields"]):
+        return set()
+    return {w["lock"]}
+
+
+def direct_guards(f, ts, gl):
+    """locks guarding the data that f's body accesses textually."""
+    return _direct_guards(f, ts, gl) - waived_locks(f)
+
+
+def _direct_guards(f, ts, gl):
+    need = set()
+    rel = os.path.relpath(f.file, REPO)
+    for m in re.finditer(r"\bbidib_track_state\s*\.\s*(\w+)", f.body):
+        if m.group(1) in ts:
+            need.add(ts[m.group(1)])
+    for g, info in gl.items():
+        if info["file"] in ("*", rel) and re.search(r"\b%s\b" % re.escape(g), f.body):
+            need.add(info["lock"])
+    return need
+
+
+def instrumented_copy(tree, path, ts, gl, workdir):
+    """Mechanical copy of one source file in which every textual access to guarded data carries an obligation:
+       - one line `#include "e2_guards_<file>.h"` + `#line` is inserted after the last #include / guarded definition
+         (before the first function); the header #defines each guarded global g of this file as
+         (*({ assert(guard held); &g; })) - the rest of the file is byte-identical and keeps its line numbers;
+       - `bidib_track_state.<member>` is rewritten to VP_TS(<member>) (same obligation, then the same member)."""
+    rel = os.path.relpath(path, REPO)
+    raw = open(path, errors="replace").read()
+    stripped = csrc.strip_comments(raw)
+    mine = {g: i for g, i in gl.items() if i["file"] in ("*", rel) and re.search(r"\b%s\b" % re.escape(g), stripped)}
+    lines = raw.split("\n")
+    sl = stripped.split("\n")
+    ins = 0
+    for n, l in enumerate(sl):
+        if re.match(r"\s*#\s*include\b", l):
+            ins = max(ins, n + 1)
+        for g in mine:
+            if re.match(r"^(?:static\s+|volatile\s+|extern\s+|const\s+)*[A-Za-z_][\w\s\*]*\b%s\b\s*(\[[^\]]*\])?\s*(=[^;]*)?;" % re.escape(g), l):
+                ins = max(ins, n + 1)
+    first_fn = min([f.line for f in tree.by_file[path]] or [len(lines)])
+    if ins >= first_fn:
+        raise csrc.ExtractError("%s: guarded data is declared after the first function definition" % rel)
+    base = os.path.basename(path)[:-2]
+    hdr = os.path.join(workdir, "e2_guards_%s.h" % base)
+    H = ["/* generated: access obligations for the guarded data visible in %s */" % rel, "extern _Bool vp_init_phase;"]
+    for m, l in sorted(ts.items()):
+        H.append("#define VP_TSG_%s %d" % (m, RANK[l]))
+        H.append('#define VP_TSN_%s "%s"' % (m, l))
+    H.append('#define VP_TS(m) (*({ __CPROVER_assert(vp_init_phase || vp_waived[VP_TSG_##m] || vp_held[VP_TSG_##m] != 0, "C10.guarded_access: bidib_track_state." #m " touched without " VP_TSN_##m); &bidib_track_state; })).m')
+    for g, i in sorted(mine.items()):
+        H.append('#define %s (*({ __CPROVER_assert(vp_init_phase || vp_waived[%d] || vp_held[%d] != 0, "C10.guarded_access: %s touched without %s"); &%s; }))' % (g, RANK[i["lock"]], RANK[i["lock"]], g, i["lock"], g))
+    with open(hdr, "w") as fh:
+        fh.write("\n".join(H) + "\n")
+    body = "\n".join(lines[ins:])
+    # rewrite only outside comments/strings: positions taken from the stripped text
+    sbody = "\n".join(sl[ins:])
+    out, pos = [], 0
+    for m in re.finditer(r"\bbidib_track_state\s*\.\s*(\w+)", sbody):
+        if m.group(1) not in ts:
+            raise csrc.ExtractError("%s: bidib_track_state.%s has no 'guarded by' comment" % (rel, m.group(1)))
+        out.append(body[pos:m.start()])
+        out.append("VP_TS(%s)" % m.group(1))
+        pos = m.end()
+    out.append(body[pos:])
+    # the copy lives in a mirror of src/<dir>/ whose headers are symlinks to the real ones, so that the file's relative
+    # #include "x.h" / "../state/y.h" lines resolve exactly as in /repo
+    mirror = os.path.join(workdir, "e2src", "src")
+    if not os.path.lexists(os.path.join(workdir, "e2src", "include")):
+        os.makedirs(os.path.join(workdir, "e2src"), exist_ok=True)
+        os.symlink(os.path.join(REPO, "include"), os.path.join(workdir, "e2src", "include"))
+    for d in sorted(glob.glob(os.path.join(REPO, "src", "*"))):
+        md = os.path.join(mirror, os.path.basename(d))
+        if os.path.isdir(d) and not os.path.isdir(md):
+            os.makedirs(md)
+            for h in glob.glob(os.path.join(d, "*.h")):
+                os.symlink(h, os.path.join(md, os.path.basename(h)))
+    dst = os.path.join(mirror, os.path.basename(os.path.dirname(path)), os.path.basename(path))
+    with open(dst, "w") as fh:
+        fh.write("\n".join(lines[:ins]) + "\n#include \"%s\"\n#line %d \"%s\"\n" % (hdr, ins + 1, path) + "".join(out))
+    return dst
+
+
 def all_headers():
     return sorted(glob.glob(os.path.join(REPO, "include", "*.h")) + glob.glob(os.path.join(REPO, "include", "*", "*.h")) +
                   glob.glob(os.path.join(REPO, "src", "*", "*.h")))
 
 
-def write_stub_tu(tree, acq, docreq, flags, workdir):
+def write_stub_tu(tree, acq, docreq, flags, workdir, atomic=None):
     """one TU with a contract stub for every function that has a lock contract."""
+    areads = {v["read"] for v in (atomic or {}).values()}
+    awrites = {v["write"] for v in (atomic or {}).values()}
     hdrs = all_headers()
     L = ['#include "vp_common.h"', '#include "vp_locks.h"', "#include <glib.h>", "#include <yaml.h>"]
     L += ['#include "%s"' % os.path.relpath(h, REPO) for h in hdrs]
@@ -172,7 +293,7 @@ def write_stub_tu(tree, acq, docreq, flags, workdir):
     names = []
     for key, g in sorted(tree.funcs.items()):
         req, free, fl = lock_contract(acq, docreq, flags, g.name)
-        if not (req or free or fl):
+        if not (req or free or fl or g.name in areads or g.name in awrites):
             continue
         if g.static and not stub_compiles_static(g):
             continue
@@ -195,6 +316,10 @@ def write_stub_tu(tree, acq, docreq, flags, workdir):
             L.append('\t\t__CPROVER_assert(vp_init_phase || vp_held[%d] != 0, "C10.requires_held: call of %s with %s=false needs %s held (%s)");' % (
                 i, g.name, fl["param"], fl["lock"], fl["source"].split(" ")[0]))
             L.append("\t}")
+        if g.name in areads:
+            L.append('\tif (vp_rmw_lock >= 0) { __CPROVER_assert(vp_held[vp_rmw_lock] == -1, "C10.atomic_section: %s (the read of a read-modify-write) is called without the exclusive lock that makes the section atomic"); vp_rmw_open = 1; vp_rmw_broken = 0; }' % g.name)
+        if g.name in awrites:
+            L.append('\tif (vp_rmw_lock >= 0 && vp_rmw_open) { __CPROVER_assert(!vp_rmw_broken && vp_held[vp_rmw_lock] == -1, "C10.atomic_section: %s (the write of a read-modify-write) is reached after the exclusive lock was released since the read"); vp_rmw_open = 0; }' % g.name)
         if g.ret.strip() != "void":
             L.append("\t%s vp_r; return vp_r;" % g.ret)
         L.append("}")
@@ -220,9 +345,21 @@ def generate(prop, tier, workdir):
     for f in tree.files:
         if re.search(r"^[ \t]+static\b", csrc.strip_comments(open(f, errors="replace").read()), re.M):
             raise csrc.ExtractError("function-local static in %s: the E2 wrapper drops the `static` keyword and would change its meaning" % f)
-    inferred, roots = infer_requires(tree, docreq, flags)
-    initset = init_only(tree)
-    stub_obj, stubbed = write_stub_tu(tree, acq, docreq, flags, workdir)
+    ts, gl = guard_tables(over)
+    IMMUTABLE_READS.clear()
+    IMMUTABLE_READS.update(over.get("guarded_globals", {}).get("immutable_part_reads", {}))
+    single = over.get("guarded_globals", {}).get("single_threaded", {})
+    INIT_ROOTS[:] = ["bidib_state_init"] + sorted(single)
+    initset = init_only(tree) | set(single)
+    inferred, roots = infer_requires(tree, docreq, flags, ts, gl, initset)
+    copies = {}
+
+    def copy_of(path):
+        if path not in copies:
+            copies[path] = instrumented_copy(tree, path, ts, gl, workdir)
+        return copies[path]
+    atomic = over.get("atomic_sections", {})
+    stub_obj, stubbed = write_stub_tu(tree, acq, docreq, flags, workdir, over.get("atomic_sections", {}))
     stubbed = set(stubbed)
     units = []
     inv = " && ".join("vp_held[%d] == __CPROVER_loop_entry(vp_held[%d])" % (i, i) for i in range(len(csrc.LOCKS)))
@@ -248,8 +385,10 @@ def generate(prop, tier, workdir):
             ["#define static /* file-local linkage dropped: helpers are replaced by their contracts like any callee */"] + \
             ([] if any(g.name == "syslog_libbidib" for g in tree.by_file[f.file]) else
              ["#define syslog_libbidib(...) ((void)0) /* logging dropped: no effect on locks; keeps the object count low */"]) + \
-            ['#include "%s"' % rel, "#undef static", "_Bool vp_init_phase;", "", "void vp_harness(void) {",
-             "\tint vp_e[VP_NLOCKS];", "\tvp_init_phase = %d;" % (1 if f.name in initset else 0)]
+            ['#include "%s"' % copy_of(f.file), "#undef static", "_Bool vp_init_phase;", "", "void vp_harness(void) {",
+             "\tint vp_e[VP_NLOCKS];", "\tvp_init_phase = %d;" % (1 if f.name in initset else 0),
+             "\tvp_rmw_lock = %d; vp_rmw_open = 0; vp_rmw_broken = 0;" % (RANK[atomic[f.name]["lock"]] if f.name in atomic else -1),
+             "\t" + " ".join("vp_waived[%d] = %d;" % (RANK[l], 1 if l in waived_locks(f) else 0) for l in csrc.LOCKS)]
         args = []
         for decl, name in f.param_list():
             L.append("\t%s;" % decl)
@@ -295,8 +434,8 @@ def generate(prop, tier, workdir):
             if not (f.file.endswith("bidib_state_setter.c") or f.file.endswith("bidib_transmission_receive.c") or f.file.endswith("bidib_transmission_node_states.c")):
                 continue
             props.append("C12")
-        if prop == "C10" and not any(docreq.get(c, (set(),))[0] or c in flags for c in contracted):
-            continue
+        # C10 ("may call concurrently ... without data races"): every unit - requires-held at call sites, guarded data
+        # touched under its lock, atomic sections, and the lock order/balance without which concurrent calls block forever
         bnd = over.get("bounded_units", {}).get(f.name)
         if bnd:
             units.append(Unit(
@@ -304,16 +443,16 @@ def generate(prop, tier, workdir):
                 bound="loops unwound %d times without unwinding assertions; reason: %s" % (bnd["unwind"], bnd["reason"]),
                 remove_bodies=others, link_objs=[(stub_obj, sorted(keep & stubbed))], stub_builtins=True, std_checks=False,
                 timeout=300, mem_gb=12, extra_flags=["--unwind", str(bnd["unwind"]), "--nondet-static"],
-                only_re=r"C1[01]\.", prop_filter={"C10": r"C10\.", "C11": r"C11\.", "C13": r"C11\."},
+                only_re=r"C1[01]\.", prop_filter={"C10": r"C1[01]\.", "C11": r"C11\.", "C13": r"C11\."},
                 min_obligations=15, covers=1, note="bounded stand-in of the lock-discipline unit"))
             continue
         units.append(Unit(
             name="E2." + f.name, src=src, functions=[f.name] + [g.name for g in inl], props=props, no_dfcc=False,
-            loops=[{"function": g.name, "all": True, "invariants": inv, "optional": True} for g in [f] + inl],
+            loops=[{"function": g.name, "all": True, "invariants": inv + (" && vp_rmw_open == 0" if f.name in atomic else ""), "optional": True} for g in [f] + inl],
             remove_bodies=others, link_objs=[(stub_obj, sorted(keep & stubbed))],
             stub_builtins=True, std_checks=False, timeout=600, mem_gb=12, object_bits=8,
             only_re=r"C1[01]\.|loop_invariant_(base|step)",
-            prop_filter={"C10": r"C10\.", "C11": r"C11\.|loop_invariant", "C13": r"C11\.|loop_invariant", "C12": r"C11\.|loop_invariant"},
+            prop_filter={"C10": r"C1[01]\.|loop_invariant", "C11": r"C11\.|loop_invariant", "C13": r"C11\.|loop_invariant", "C12": r"C11\.|loop_invariant"},
             min_obligations=15, covers=1, internal_is_property=True, stubbed_contracts=contracted,
             note="lock-discipline unit (E2): data fully abstracted (nondeterministic callee results and pointers; DFCC frame "
                  "checks on abstracted data are not obligations of this unit); tracked: the 15-lock ghost vector. "
